@@ -295,6 +295,22 @@ func checkC14(w *World, r *Report) {
 		return
 	}
 	w.exportLock(r, "C14.R1", &lockSpec{named: rb, mutex: "mu", guarded: map[string]bool{"content": true}, deep: []*types.Named{buf}, atomicW: map[string]bool{"len": true}}, w.fnPos(push))
+	// each operation is ONE critical section: what it read (positions, the need to grow) is still true when it writes.
+	// A lock given up and taken again in mid-operation keeps every access "under the lock" and is still a lost update.
+	for _, op := range []*ssa.Function{push, pop, popn} {
+		g := w.FGI(op)
+		locks := make([]bool, len(g.ins))
+		for n, in := range g.ins {
+			if c := callOf(in); c != nil && c.StaticCallee() != nil && c.StaticCallee().Pkg != nil && c.StaticCallee().Pkg.Pkg.Path() == "sync" {
+				if nm := c.StaticCallee().Name(); nm == "Lock" || nm == "RLock" {
+					locks[n] = true
+				}
+			}
+		}
+		once, _ := g.AtMostOnce(locks)
+		r.Check(once && anyOf(locks), "C14.R1", "RingBuffer."+op.Name()+":one-critical-section", "the operation takes the lock once: everything it reads and writes happens in one critical section", w.fnPos(op),
+			"the lock is taken more than once on a path (released and re-acquired in mid-operation): another Push/Pop/PopN runs in between on positions this operation has already read or advanced")
+	}
 	if ok, why := w.returnsOnly(ln, "call:sync/atomic.LoadInt64(&P0.len)"); ok {
 		r.OK("C14.R1", "RingBuffer.Len", "Len() is a single atomic load of len", w.fnPos(ln))
 	} else {
